@@ -302,3 +302,5 @@ _quick("C07", "C07_percent", "a hold with the share-of-expiry persistence flag (
 _quick("C12", "C12_remote_newer", "the remote REPL_PROPOSAL handler on an acceptor of weight 0..2, data-bearing or arbiter, whose current log position and the proposal's are each one of 4 positions (file index 1..2, offset 1 or 5; the acceptor's own member entry is stale): accepted only if the acceptor is an arbiter or its current log is not newer", ["-witness", "8"], reach=["end", "accepted"])
 
 _quick("C03", "C03_textexpire", "a text connection (real TextServerProtocol handlers) takes a hold with E = 3 s as its first lock-type command or after a LOCK / UNLOCK pair; the hold expires while the connection is silent; then LOCK on another key and UNLOCK: no notice queued for the connection, each command answered with its own result and LockId", ["-witness", "2"])
+
+_quick("C17", "C17_relock_long", "a hold with Rcount 3 parked in the long-expiry table at once (persist-immediately flag with E = 100 s, or unlimited expiry), re-locked 1..2 times in the same second (deadline unchanged) or a second later, every level given back, wheel swept: exact LCount / LRCount in every reply, counters back, no live manager", ["-witness", "6"])
